@@ -1,0 +1,42 @@
+//go:build verif
+
+package shovel
+
+import (
+	"context"
+	"time"
+
+	"github.com/indexsupply/shovel/shovel/config"
+	"github.com/jackc/pgx/v5/pgxpool"
+)
+
+// Thin wrappers exporting unexported identifiers to the verification
+// harness (property C20). Compiled only with -tags verif.
+
+// VerifTask is the part of a Task that loadTasks decides.
+type VerifTask struct {
+	SrcName, IGName string
+	URL             string // the URL the task's source hands out first
+	ChainID         uint64
+	Start, Stop     uint64
+	PollDuration    time.Duration
+	BatchSize       int
+	Concurrency     int
+}
+
+// VerifLoadTasks is loadTasks.
+func VerifLoadTasks(ctx context.Context, pgp *pgxpool.Pool, c config.Root) ([]VerifTask, error) {
+	tasks, err := loadTasks(ctx, pgp, c)
+	if err != nil {
+		return nil, err
+	}
+	var res []VerifTask
+	for _, t := range tasks {
+		res = append(res, VerifTask{
+			SrcName: t.srcName, IGName: t.destConfig.Name, URL: t.src.NextURL().String(), ChainID: t.srcChainID,
+			Start: t.start, Stop: t.stop, PollDuration: t.pollDuration,
+			BatchSize: t.batchSize, Concurrency: t.concurrency,
+		})
+	}
+	return res, nil
+}
